@@ -192,12 +192,11 @@ Definition is_msg_kind (k : pkind) : bool :=
   | _ => false
   end.
 
-(* HasPresence of the linked field. buildProperty sets proto3_optional but adds
-   no synthetic oneof, so the optional keyword gives NO presence: only singular
-   message-typed fields have it. *)
-Definition field_presence (t : pty) (k : pkind) : bool :=
+(* HasPresence of the linked field: singular message-typed fields, and
+   explicitly optional fields (visitObjectNode puts them in a synthetic oneof) *)
+Definition field_presence (t : pty) (opt : bool) (k : pkind) : bool :=
   match t with
-  | PSingle _ => is_msg_kind k
+  | PSingle _ => opt || is_msg_kind k
   | _ => false
   end.
 
@@ -210,17 +209,13 @@ Definition write_prop (env : enum_env) (idx : N) (d : prop) : outcome fout :=
          end)
     (fun w =>
        let required := p_req d || match fw_key w with Some k => kx_primary k | None => false end in
-       match p_ty d, required with
-       | PMap _, true => Panic "proto.SetExtension on nil FieldOptions (map field)"
-       | _, _ =>
-         if p_opt d && required then Err "cannot be both required and optional"
-         else Ok (FO (p_name d) (idx + 1)%N (fw_kind w)
-                     (match p_ty d with PSingle _ => false | _ => true end)
-                     (p_opt d)
-                     (field_presence (p_ty d) (fw_kind w))
-                     (if required then set_required (fw_val w) else fw_val w)
-                     (fw_ext w) (fw_list w) (fw_key w) (p_desc d))
-       end).
+       if p_opt d && required then Err "cannot be both required and optional"
+       else Ok (FO (p_name d) (idx + 1)%N (fw_kind w)
+                   (match p_ty d with PSingle _ => false | _ => true end)
+                   (p_opt d)
+                   (field_presence (p_ty d) (p_opt d) (fw_kind w))
+                   (if required then set_required (fw_val w) else fw_val w)
+                   (fw_ext w) (fw_list w) (fw_key w) (p_desc d))).
 
 Fixpoint write_props_from (env : enum_env) (idx : N) (ds : list prop) : outcome (list fout) :=
   match ds with
